@@ -90,11 +90,11 @@ def parse_head(head):
     fields = []
     bad = False
     for l in lines[1:]:
-        if b": " not in l:
+        if b":" not in l:
             bad = True
             continue
-        k, v = l.split(b": ", 1)
-        fields.append((k, v))
+        k, v = l.split(b":", 1)
+        fields.append((k.strip(b" \t"), v.strip(b" \t")))
     return int(m.group(1)), m.group(2), fields, bad
 
 
@@ -551,10 +551,10 @@ def monitor_case(c, impl):
             bad.append("O1: processHttpRequest threw / crashed / issued an impossible command sequence: %s -> %s" % (op[:80], l[:80]))
             continue
         if up:
-            if o["kind"] == "nothing" or o["kind"] == "sendfailed":
+            if o["kind"] == "sendfailed":
                 bad.append("O1: a complete request got no response although the server is up: %s -> %s" % (op[:100], l[:40]))
                 continue
-            if o["kind"] == "suppressed" and not c["may_suppress"]:
+            if o["kind"] == "silent" and not c["may_suppress"]:
                 bad.append("O1: response suppressed although no handler asked for it: %s" % op[:100])
                 continue
         if o["kind"] != "respond":
@@ -590,7 +590,7 @@ def monitor_case(c, impl):
                 bad.append("O4: response to HEAD carries %d body bytes: %s" % (o["bodylen"], op[:100]))
             if c["api_only"] and r["method"] != "HEAD":
                 if cl is None:
-                    if not (st == 204 and r["method"] == "OPTIONS"):
+                    if st not in (204, 304):
                         bad.append("O4: handler used only the response API but the response has no Content-Length: %s -> %s" % (op[:80], l[:80]))
                 elif not re.fullmatch(rb"\d+", cl) or int(cl) != o["bodylen"]:
                     bad.append("O4: Content-Length %s but %d body bytes follow: %s" % (cl, o["bodylen"], op[:100]))
@@ -997,6 +997,8 @@ def run(ctx: Ctx):
             if len(ctx.cov["samples"]) < 6 and ctx.rng.chance(1, 300):
                 ctx.sample({"cat": c["cat"], "ops": [o[:200] for o in c["ops"][:8]], "impl": [l[:200] for l in impl[:8]]})
             fails = monitor_case(c, impl)
+            # the engine cannot tell "suppressed" from "nothing to send": the model says why it is silent, the harness only that it is
+            model = ["silent" if l.startswith("silent ") else l for l in model]
             mism = [(i, a, b) for i, (a, b) in enumerate(zip(impl, model)) if a != b]
             if fails:
                 report_property(ctx, hb, c, impl, model, fails)
